@@ -1395,24 +1395,24 @@ Proof.
       apply in_firstn_nth; auto. rewrite seq_length. lia. }
     destruct fl as [|ord|b]; simpl in Hcfg; try discriminate.
     - inversion Hcfg; subst. exact Hseq.
-    - destruct ord as [|a [|b r]]; try discriminate.
-      + inversion Hcfg; subst. exact Hseq.
-      + set (ord := a :: b :: r) in *. destruct (forallb _ ord) eqn:Eall; [|discriminate].
-        inversion Hcfg; subst. exists ord. split; auto.
-        simpl in Hflow. apply andb_true_iff in Hflow as [Hflow Htopo].
-        apply andb_true_iff in Hflow as [_ Hperm].
-        unfold perm_of_seq in Hperm. apply andb_true_iff in Hperm as [_ Hcov].
-        rewrite forallb_forall in Hcov, Eall. split.
-        * intros j Hj. apply memn_In. apply Hcov. apply in_seq. lia.
-        * intros q Hq. assert (Hjq : nth q ord 0 < List.length body).
-          { apply Nat.ltb_lt. apply Eall. now apply nth_In. }
-          split; auto. intros j' l k Ha.
-          unfold topo_ok in Htopo. rewrite forallb_forall in Htopo.
-          specialize (Htopo (nth q ord 0) ltac:(apply in_seq; lia)).
-          rewrite forallb_forall in Htopo. specialize (Htopo (AOut j' l) (nth_error_In _ _ Ha)).
-          simpl in Htopo. apply Nat.ltb_lt in Htopo.
-          pose proof (pos_of_le (nth q ord 0) ord 0 q 0 Hq eq_refl) as Hle.
-          apply (pos_of_in j' ord 0 q); lia. }
+    - destruct ord as [|a [|b r]]; [simpl in Hflow; discriminate|simpl in Hcfg; discriminate|].
+      cbn [configure] in Hcfg. set (ord := a :: b :: r) in *.
+      destruct (forallb (fun j => Nat.ltb j (List.length body)) ord) eqn:Eall; [|discriminate].
+      inversion Hcfg; subst. exists ord. split; auto.
+      unfold flow_ok in Hflow. apply andb_true_iff in Hflow as [Hflow Htopo].
+      apply andb_true_iff in Hflow as [_ Hperm].
+      unfold perm_of_seq in Hperm. apply andb_true_iff in Hperm as [_ Hcov].
+      rewrite forallb_forall in Hcov, Eall. split.
+      + intros j Hj. apply memn_In. apply Hcov. apply in_seq. lia.
+      + intros q Hq. assert (Hjq : nth q ord 0 < List.length body).
+        { apply Nat.ltb_lt. apply Eall. now apply nth_In. }
+        split; auto. intros j' l k Ha.
+        unfold topo_ok in Htopo. rewrite forallb_forall in Htopo.
+        specialize (Htopo (nth q ord 0) ltac:(apply in_seq; lia)).
+        rewrite forallb_forall in Htopo. specialize (Htopo (AOut j' l) (nth_error_In _ _ Ha)).
+        cbn beta iota in Htopo. apply Nat.ltb_lt in Htopo.
+        pose proof (pos_of_le (nth q ord 0) ord 0 q 0 Hq eq_refl) as Hle.
+        apply (pos_of_in j' ord 0 q); lia. }
   destruct Hord as (ord & -> & Hcov & Htopo). split; [|split].
   - apply sched_app.
     + unfold kept_uis. apply sched_uis. intros i Hi. apply filter_In in Hi as [Hi _]. apply in_seq in Hi. lia.
@@ -1421,4 +1421,161 @@ Proof.
       * simpl. tauto.
   - intros i Hi Hk. apply in_or_app. left. apply kept_uis_in. split; [lia|auto].
   - intros j Hj. apply in_or_app. right. apply in_map. auto.
+Qed.
+
+Lemma all_nested_nth f body : all_nested f body = true ->
+  forall j d', s_mac (nth j body dstmt) = Some d' -> f d' = true.
+Proof.
+  induction body as [|st r IH]; intros H j d'; simpl in *.
+  - destruct j; discriminate.
+  - apply andb_true_iff in H as [H1 H2]. destruct j as [|j]; [|now apply IH].
+    intros E. rewrite E in H1. exact H1.
+Qed.
+
+Lemma kid_nouts ps body rets fl l ps' ols recvs kept uirecv sb manual order j :
+  wired (MDef ps body rets fl) (SMac l ps' ols recvs kept uirecv sb manual order) ->
+  j < List.length body -> s_nouts (kid sb j) = nth j (body_nouts body) 0.
+Proof.
+  intros Hw Hj. destruct (wired_kids _ _ _ _ _ _ _ _ _ _ _ _ _ Hw) as [_ Hk]. specialize (Hk j Hj).
+  unfold body_nouts. rewrite (nth_indep _ 0 (stmt_nouts dstmt)) by (now rewrite map_length).
+  rewrite map_nth. unfold stmt_nouts. destruct (s_mac (nth j body dstmt)) as [d'|].
+  - destruct Hk as [Hk _]. now apply wired_nouts.
+  - now rewrite Hk.
+Qed.
+
+Lemma run_coh d : wfd d = true -> rets_distinct d = true -> run_spec d.
+Proof.
+  induction d as [ps body rets fl IH] using mdef_ind'. intros Hwf Hrd s v Hw Hc Hd.
+  destruct s as [|l ps' ols recvs kept uirecv sb manual order]; [simpl in Hw; tauto|].
+  pose proof (wired_kids _ _ _ _ _ _ _ _ _ _ _ _ _ Hw) as [Hlen Hwk].
+  pose proof (coh_kids _ _ _ _ _ _ _ _ _ _ _ _ _ _ Hc) as Hck.
+  pose proof (fun j => kid_nouts _ _ _ _ _ _ _ _ _ _ _ _ _ j Hw) as Hkn.
+  pose proof Hw as (-> & -> & HWL & _).
+  pose proof Hwf as Hwf0.
+  simpl in Hwf. apply andb_true_iff in Hwf as [Hwf Hwb]. apply andb_true_iff in Hwf as [Hnd Hflow].
+  destruct (wf_body_spec _ _ _ _ _ Hwb) as [Hst Hrets]. simpl in Hst, Hrets.
+  simpl in Hrd. apply andb_true_iff in Hrd as [Hrd Hrdn].
+  destruct v as [ins outs c ui vb].
+  rewrite run_mac. unfold run_mac_with.
+  pose proof Hc as (HCL & Hcache & _). simpl in HCL, Hcache, Hck, Hd.
+  destruct (cache_hit c ins) eqn:Eh.
+  { apply cache_hit_iff in Eh. destruct (Hcache _ Eh) as [_ Hden].
+    exists (VN ins outs c ui vb), 0, []. simpl.
+    split; [reflexivity|]. split; [exact Hc|]. split; [reflexivity|]. split; [exact Hden|].
+    split; [reflexivity|]. intros lx []. }
+  rewrite Hd.
+  pose proof HCL as (Li & Lo & Lu & Lb & _).
+  destruct (denote_body_total denote wfd (List.length ps) rets ins body [] []) as (E & HEq & HEok); auto.
+  { intros j d' _ Em Hw'. apply denote_total. exact Hw'. }
+  { split; auto. simpl. intros j Hj; lia. }
+  simpl in HEok.
+  assert (Hrefs : forall j, j < List.length body ->
+            forallb (ref_ok (List.length ps) (firstn j (body_nouts body)) true) (sargs body j) = true).
+  { intros j Hj. apply Hst; auto. }
+  assert (HE : forall j, j < List.length body ->
+            let avs := map (env_val ins E) (sargs body j) in
+            match s_mac (nth j body dstmt) with
+            | None => all_data avs = true /\ nth j E [] = [Some (mlin (vals avs))]
+            | Some d' => all_data (fill avs (d_params d')) = true /\
+                         denote d' (fill avs (d_params d')) = Some (nth j E [])
+            end).
+  { intros j Hj. apply (denote_body_spec denote ins body [] E HEq); auto.
+    intros j0 a Hj0 Ha. simpl. specialize (Hrefs j0 Hj0). rewrite forallb_forall in Hrefs.
+    pose proof (refs_of_ref_ok _ _ _ a (Hrefs a Ha)) as Hr. destruct a; simpl; auto.
+    rewrite firstn_length in Hr. lia. }
+  assert (Hnest : forall j d', j < List.length body -> s_mac (nth j body dstmt) = Some d' ->
+            List.length (sargs body j) <= List.length (d_params d') /\ run_spec d').
+  { intros j d' Hj Em. destruct (Hst j Hj) as [_ Hm]. rewrite Em in Hm. destruct Hm as (Hw' & Hle & _).
+    split; auto. apply (IH j d' Em); auto. eapply all_nested_nth; eauto. }
+  destruct (configure_sched ps body kept fl manual order) as (Hsched & Hcovu & Hcovb); auto.
+  { destruct HWL as (_ & H & _). exact H. }
+  { destruct HWL as (_ & _ & _ & H & _). exact H. }
+  destruct (loop ps body rets fl recvs kept uirecv sb manual order HWL Hlen Hwk ins Li Hd E HEok HE Hrefs Hnest
+                 outs order [] (MS outs ui vb 0 [])) as (st' & Hfold & Hinv'); auto.
+  { split; [exact HCL|]. split; [|split; [|split; [|split]]]; simpl; auto.
+    - intros i []. - intros j []. - intros ox []. }
+  rewrite Hfold. rewrite app_nil_r in Hinv'.
+  destruct Hinv' as (HCL' & Hch' & Hdu' & Hdb' & Hpo' & Hpr').
+  eexists _, _, _. split; [reflexivity|]. cbn [v_ins v_outs].
+  pose proof HWL as (Hlr & Hlk & Hlu & Hcfg & Hui & Hrk & Hrb & Hrb' & Hpass & Hbody).
+  assert (Houts : ms_outs st' = map (fun la => env_val ins E (snd la)) rets).
+  { pose proof HCL' as (_ & Lo' & Lu' & Lb' & _ & _ & _ & _ & _ & Hc4u' & Hc4b').
+    apply (@list_eq_nth val None); [rewrite map_length; exact Lo'|].
+    intros o Ho. rewrite Lo' in Ho.
+    rewrite (nth_indep (map _ rets) None ((fun la : string * arg => env_val ins E (snd la)) dret))
+      by (now rewrite map_length).
+    cbv beta.
+    change (env_val ins E (snd dret)) with ((fun la : string * arg => env_val ins E (snd la)) dret).
+    rewrite map_nth.
+    pose proof (last_idx_nodup rets Hrd o 0 Ho) as Hlast. simpl in Hlast.
+    rewrite forallb_forall in Hrets. specialize (Hrets (nth o rets dret) (nth_In _ _ Ho)).
+    destruct (snd (nth o rets dret)) as [i|j lo|z] eqn:Ea; simpl in Hrets; [| |discriminate].
+    - apply Nat.ltb_lt in Hrets. simpl.
+      assert (Hk : nth i kept false = true) by (apply Hpass; auto; congruence).
+      assert (Hu : nth i uirecv None = Some o) by (rewrite Hui; auto).
+      rewrite (Hc4u' i o Hrets Hu).
+      rewrite (Hdu' i); auto. apply -> in_rev. auto.
+    - apply andb_true_iff in Hrets as [Hj Hl]. apply Nat.ltb_lt in Hj, Hl.
+      unfold body_nouts in Hj. rewrite map_length in Hj.
+      destruct (Hbody j Hj) as (_ & _ & _ & _ & Hor).
+      rewrite <- (Hkn j Hj) in Hl.
+      assert (Ho' : nth lo (sb_orecv (nth j sb dsb)) None = Some o) by (rewrite Hor; auto).
+      rewrite (Hc4b' j lo o Hj Ho'). simpl.
+      rewrite (Hdb' j); auto. apply -> in_rev. auto. }
+  assert (Hden : denote (MDef ps body rets fl) ins = Some (ms_outs st')).
+  { cbn [denote]. rewrite HEq. f_equal. symmetry. exact Houts. }
+  split; [|split; [reflexivity|split; [exact Hden|split; [exact Hpo'|]]]].
+  - apply coh_intro; simpl; auto.
+    intros cc Hcc. inversion Hcc; subst cc. split; auto.
+  - intros lx Hin. exact (eq_ind_r (fun n => fst lx < n) (Hpr' lx Hin) Lo).
+Qed.
+
+(* ================================================================================== *)
+(* K. construction: what each step of [build] produces                                  *)
+Lemma script_spec bld np body : forall sofar vsofar sb vb,
+  script bld np body sofar vsofar = Some (sb, vb) ->
+  exists sb' vb', sb = sofar ++ sb' /\ vb = vsofar ++ vb' /\
+    List.length sb' = List.length body /\ List.length vb' = List.length body /\
+    forall j, j < List.length body ->
+      let st := nth j body dstmt in
+      forallb (arg_ok np (sofar ++ firstn j sb')) (s_args st) = true /\
+      match s_mac st with
+      | None => nth j sb' dsb = SB (SFn (s_label st) false (List.length (s_args st))) (map arg_conn (s_args st)) [None] /\
+                nth j vb' dv = VN (map arg_val (s_args st)) [None] None [] []
+      | Some d' => exists s' v', bld d' (s_label st) = Some (s', v') /\
+                     List.length (s_args st) <= s_nins s' /\
+                     nth j sb' dsb = SB s' (pad (s_nins s') (map arg_conn (s_args st)) []) (repeat None (s_nouts s')) /\
+                     nth j vb' dv = apply_args s' v' 0 (s_args st)
+      end.
+Proof.
+  induction body as [|st r IH]; intros sofar vsofar sb vb H; simpl in H.
+  - inversion H; subst. exists [], []. rewrite !app_nil_r.
+    split; [reflexivity|]. split; [reflexivity|]. split; [reflexivity|]. split; [reflexivity|].
+    simpl. intros j Hj; lia.
+  - destruct (forallb (arg_ok np sofar) (s_args st)) eqn:Eok; [|discriminate].
+    assert (Hstep : exists e ve, script bld np r (sofar ++ [e]) (vsofar ++ [ve]) = Some (sb, vb) /\
+              match s_mac st with
+              | None => e = SB (SFn (s_label st) false (List.length (s_args st))) (map arg_conn (s_args st)) [None] /\
+                        ve = VN (map arg_val (s_args st)) [None] None [] []
+              | Some d' => exists s' v', bld d' (s_label st) = Some (s', v') /\
+                             List.length (s_args st) <= s_nins s' /\
+                             e = SB s' (pad (s_nins s') (map arg_conn (s_args st)) []) (repeat None (s_nouts s')) /\
+                             ve = apply_args s' v' 0 (s_args st)
+              end).
+    { destruct (s_mac st) as [d'|].
+      - destruct (bld d' (s_label st)) as [[s' v']|] eqn:Eb; [|discriminate].
+        destruct (Nat.leb (List.length (s_args st)) (s_nins s')) eqn:El; [|discriminate].
+        apply Nat.leb_le in El. eexists _, _. split; [exact H|]. exists s', v'. auto.
+      - eexists _, _. split; [exact H|]. auto. }
+    destruct Hstep as (e & ve & Hrest & He).
+    destruct (IH _ _ _ _ Hrest) as (sb' & vb' & -> & -> & HL1 & HL2 & Hn).
+    exists (e :: sb'), (ve :: vb'). rewrite <- !app_assoc. simpl.
+    split; [reflexivity|]. split; [reflexivity|]. split; [lia|]. split; [lia|].
+    intros j Hj. split.
+    + destruct j as [|j]; simpl; [now rewrite app_nil_r|].
+      destruct (Hn j ltac:(simpl in *; lia)) as [A _]. rewrite <- app_assoc in A. exact A.
+    + destruct j as [|j]; simpl.
+      * destruct (s_mac st) as [d'|]; [|destruct He; subst; auto].
+        destruct He as (s' & v' & A & B & -> & ->). exists s', v'. auto.
+      * destruct (Hn j ltac:(simpl in *; lia)) as [_ B]. exact B.
 Qed.
